@@ -167,7 +167,9 @@ func c08Axes() (exS, inS []lint.SourceList, nfs []*regexp.Regexp, incN, excN [][
 	}
 	nfs = []*regexp.Regexp{nil, regexp.MustCompile(`^e_`), regexp.MustCompile(`.*`), regexp.MustCompile(`$^`), regexp.MustCompile(`crl`),
 		regexp.MustCompile(regexp.QuoteMeta(cert2)), regexp.MustCompile(`ocsp|this_update`)}
-	lists := [][]string{nil, {}, {cert}, {crl}, {ocsp}, {" " + cert2 + "\t"}, {cert, cert}, {cert, cert2}, {"e_no_such_lint"}, {cert, "e_no_such_lint"}, {""}, {crl, ocsp, cert}}
+	// (a known name in another case is an unknown name: names are compared after trimming, nothing else)
+	lists := [][]string{nil, {}, {cert}, {crl}, {ocsp}, {" " + cert2 + "\t"}, {cert, cert}, {cert, cert2}, {"e_no_such_lint"}, {cert, "e_no_such_lint"}, {""}, {crl, ocsp, cert},
+		{strings.ToUpper(cert)}, {cert, strings.ToUpper(cert2[:1]) + cert2[1:]}}
 	var clean [][]string
 	for _, l := range lists {
 		ok := true
